@@ -949,7 +949,9 @@ func HandleDisconnectUser(cc *hotline.ClientConn, t *hotline.Transaction) (res [
 	// 00 01 = temporary ban
 	// 00 02 = permanent ban
 	if t.GetField(hotline.FieldOptions).Data != nil {
-		switch t.GetField(hotline.FieldOptions).Data[1] {
+		// Some clients send the option as a 4 byte integer (see Field.DecodeInt).
+		banOption, _ := t.GetField(hotline.FieldOptions).DecodeInt()
+		switch banOption {
 		case 1:
 			// send message: "You are temporarily banned on this server"
 			cc.Logger.Info("Disconnect & temporarily ban " + string(clientConn.UserName))
